@@ -6,6 +6,11 @@ from ..jmc_function import JMCFunction, FuncType, func_property
 from ...exception import JMCValueError
 
 
+def _int32(value: int) -> int:
+    """Wrap an integer to the 32-bit range of a scoreboard value (scoreboard arithmetic wraps around)"""
+    return (value + 2147483648) % 4294967296 - 2147483648
+
+
 @func_property(
     func_type=FuncType.VARIABLE_OPERATION,
     call_string="Math.sqrt",
@@ -143,13 +148,13 @@ class MathRandom(JMCFunction):
                 f"scoreboard players set {bound} {var} {end.value - start.value + 1}"]
         elif not isinstance(start.value, int) and isinstance(end.value, int):
             run = [
-                f"scoreboard players set {bound} {var} {end.value + 1}",
+                f"scoreboard players set {bound} {var} {_int32(end.value + 1)}",
                 f"scoreboard players operation {bound} {var} -= {start.value[1]} {start.value[0]}"
             ]
         elif isinstance(start.value, int) and not isinstance(
                 end.value, int):
             run = [
-                f"scoreboard players set {bound} {var} {-start.value + 1}",
+                f"scoreboard players set {bound} {var} {_int32(-start.value + 1)}",
                 f"scoreboard players operation {bound} {var} += {end.value[1]} {end.value[0]}"
             ]
         else:
@@ -167,7 +172,12 @@ class MathRandom(JMCFunction):
         if isinstance(start.value, int):
             run.append(
                 f"scoreboard players operation {self.var} = {result} {var}")
-            if start.value < 0:
+            if start.value == -2147483648:
+                # 2147483648 is not a valid amount for add/remove
+                self.datapack.add_int(start.value)
+                run.append(
+                    f"scoreboard players operation {self.var} += {start.value} {DataPack.int_name}")
+            elif start.value < 0:
                 run.append(
                     f"scoreboard players remove {self.var} {abs(start.value)}")
             elif start.value > 0:
